@@ -292,4 +292,61 @@ PointSourceOK(m, b, e, ct) ==
      IN /\ \A j \in DOMAIN e.pscols : e.pscols[j] \in 1..b.ndofs /\ FxWF(e.psvals[j])
         /\ \E kk \in DOMAIN m.t : VSet(e.pscols) \subseteq VSet(b.edofs[kk]) /\ CellContains(m, e.pts[1], kk, ct[1])
         /\ FxNear(dotp, e.vals[1], TolAt(b, e, 1))
+\* ---------------------------------------------------------------------------
+\* Suite stream (executions of the repository's own tests): generic FLOAT coordinates.  The projection supplies, as
+\* witnesses, the barycentric coordinates lam[simplex][vertex] (Fx, computed exactly from the float data) of a query
+\* point w.r.t. the simplices whose union is a cell; containment is decided here.
+TolInside == FxTol(36)
+SimplexInsideFx(l)  == \A i \in DOMAIN l : FxLeq(FxNeg(TolInside), l[i])             \* in the closed simplex within round-off
+SimplexRobustFx(l)  == \A i \in DOMAIN l : FxLeq(TolInside, l[i])                    \* strictly inside, beyond round-off
+SimplexFarFx(l)     == \E i \in DOMAIN l : FxLeq(l[i], FxNeg(FxTol(MarginBits)))     \* outside by more than the margin 2^-10
+CellInsideFx(ls)    == \E s \in DOMAIN ls : SimplexInsideFx(ls[s])
+CellRobustFx(ls)    == \E s \in DOMAIN ls : SimplexRobustFx(ls[s])
+CellFarFx(ls)       == \A s \in DOMAIN ls : SimplexFarFx(ls[s])
+LamWF(ls, kind) == /\ Len(ls) >= 1
+                   /\ \A s \in DOMAIN ls : Len(ls[s]) = Dim(kind) + 1 /\ \A i \in DOMAIN ls[s] : FxWF(ls[s][i])
+SuiteFindWF(e) ==
+  /\ e.malformed = 0
+  /\ e.kind \in {"line", "tri", "quad", "tet", "hex", "wedge"}
+  /\ (e.err = "") => (Len(e.res) = Len(e.lam) /\ Len(e.res) >= 1 /\ \A n \in DOMAIN e.res : e.res[n] \in 1..e.nt /\ LamWF(e.lam[n], e.kind))
+  /\ (e.err # "") => e.lamall # <<>>
+  /\ \A n \in DOMAIN e.lamall : Len(e.lamall[n]) = e.nt /\ \A k \in DOMAIN e.lamall[n] : LamWF(e.lamall[n][k], e.kind)
+SuiteFoundCellContainsPoint(e) == (e.err = "") => \A n \in DOMAIN e.lam : CellInsideFx(e.lam[n])
+\* raised: some point lies robustly inside no cell
+SuiteBoundaryPointsAreFound(e) ==
+  (e.err # "") => \E n \in DOMAIN e.lamall : \A k \in DOMAIN e.lamall[n] : ~CellRobustFx(e.lamall[n][k])
+\* a point outside every cell by more than the margin makes the call raise
+SuiteRaisesOutside(e) ==
+  (\E n \in DOMAIN e.lamall : \A k \in DOMAIN e.lamall[n] : CellFarFx(e.lamall[n][k])) => e.err # ""
+
+\* probing matrix recorded from a test: rows[r] = <<[c |-> column, v |-> Fx value]>> sorted by column
+SuiteEntry(row, d) == FxSum([j \in DOMAIN row |-> IF row[j].c = d THEN row[j].v ELSE FxZero])
+SuiteCols(row) == {row[j].c : j \in DOMAIN row}
+SuiteProbeWF(e) ==
+  LET N == e.npts IN
+  /\ e.err = "" /\ e.shape_ok = 1 /\ N >= 1 /\ e.ncomp >= 1
+  /\ Len(e.cells) = N /\ Len(e.edofs) = N /\ Len(e.lam) = N /\ Len(e.phis) = N /\ Len(e.rows) = e.ncomp * N
+  /\ \A n \in 1..N : /\ e.cells[n] \in 1..e.nt /\ LamWF(e.lam[n], e.kind)
+                     /\ \A i \in DOMAIN e.edofs[n] : e.edofs[n][i] \in 1..e.ndofs
+                     /\ Len(e.phis[n]) = e.ncomp
+                     /\ \A c \in 1..e.ncomp : /\ Len(e.phis[n][c]) = Len(e.edofs[n])
+                                              /\ \A i \in DOMAIN e.phis[n][c] : FxWF(e.phis[n][c][i])
+  /\ \A r \in DOMAIN e.rows : \A j \in DOMAIN e.rows[r] : e.rows[r][j].c \in 1..e.ndofs /\ FxWF(e.rows[r][j].v)
+  /\ (e.out # <<>>) => (Len(e.out) = e.ncomp * N /\ Len(e.py) = Len(e.out) /\ Len(e.mag) = Len(e.out)
+                         /\ \A r \in DOMAIN e.out : FxWF(e.out[r]) /\ FxWF(e.py[r]) /\ e.mag[r] \in 1..16384)
+SuiteProbeRows(e) ==
+  \A n \in 1..e.npts : \A c \in 1..e.ncomp : SuiteCols(e.rows[RowOf(c, n, e.npts)]) \subseteq VSet(e.edofs[n])
+\* entry (row of component c of point n, column d) = sum of the local shape functions attached to global DOF d
+SuiteLocalExpansion(e) ==
+  \A n \in 1..e.npts : \A c \in 1..e.ncomp :
+    LET row == e.rows[RowOf(c, n, e.npts)]
+        mag == 1 + MaxSet({0} \cup {Abs(FxAbs(e.phis[n][c][i])[1]) : i \in DOMAIN e.phis[n][c]})
+        tol == FxMulSmall(TolGeom, Min2(mag * Len(e.edofs[n]), 16384))
+    IN \A d \in SuiteCols(row) \cup VSet(e.edofs[n]) :
+         FxNear(SuiteEntry(row, d),
+                FxSum([i \in DOMAIN e.edofs[n] |-> IF e.edofs[n][i] = d THEN e.phis[n][c][i] ELSE FxZero]), tol)
+\* interpolator(y)(x) = probes(x) @ y  (the pairing is computed exactly by the projection from the returned matrix)
+SuiteInterpolatorIsProbesTimesY(e) ==
+  \A r \in DOMAIN e.out : FxNear(e.out[r], e.py[r], FxMulSmall(TolGeom, e.mag[r]))
+
 ==============================================================================
